@@ -64,18 +64,27 @@ structure CongFam where
   relS : Stmt → Stmt → Prop
   relL : Last → Last → Prop
   relB : Block → Block → Prop
+  /-- blocks whose final environment still matters (the body of a `repeat`, before its condition) -/
+  relBo : Block → Block → Prop
+  /-- a `repeat` body together with its `until` condition (evaluated in the body's scope) -/
+  relRep : Block → Expr → Block → Expr → Prop
   relF : FnBody → FnBody → Prop
   reflE : ∀ e, relE e e
   reflT : ∀ e, relT e e
   reflS : ∀ s, relS s s
   reflL : ∀ l, relL l l
   reflB : ∀ b, relB b b
+  reflBo : ∀ b, relBo b b
   reflF : ∀ f, relF f f
   transE : ∀ {a b c}, relE a b → relE b c → relE a c
   transT : ∀ {a b c}, relT a b → relT b c → relT a c
   transS : ∀ {a b c}, relS a b → relS b c → relS a c
   transL : ∀ {a b c}, relL a b → relL b c → relL a c
   transB : ∀ {a b c}, relB a b → relB b c → relB a c
+  transBo : ∀ {a b c}, relBo a b → relBo b c → relBo a c
+  transRep : ∀ {a x b y c z}, relRep a x b y → relRep b y c z → relRep a x c z
+  boToB : ∀ {a b}, relBo a b → relB a b
+  repOfOpen : ∀ {b b' c c'}, relBo b b' → relE c c' → relRep b c b' c'
   -- expressions
   paren : ∀ {x x'}, relE x x' → relE (.paren x) (.paren x')
   un : ∀ {op x x'}, relE x x' → relE (.un op x) (.un op x')
@@ -112,13 +121,13 @@ structure CongFam where
   localAssign : ∀ {kind ns ns' vs vs'}, ns.map TName.name = ns'.map TName.name →
     Forall2 relE vs vs' → relS (.localAssign kind ns vs) (.localAssign kind ns' vs')
   localFn : ∀ {kind name f f'}, relF f f' → relS (.localFn kind name f) (.localFn kind name f')
-  repeat_ : ∀ {b b' c c'}, relB b b' → relE c c' → relS (.repeat_ b c) (.repeat_ b' c')
+  repeat_ : ∀ {b b' c c'}, relRep b c b' c' → relS (.repeat_ b c) (.repeat_ b' c')
   while_ : ∀ {b b' c c'}, relE c c' → relB b b' → relS (.while_ c b) (.while_ c' b')
   typeDecl : ∀ {ex name ty ty'}, relS (.typeDecl ex name ty) (.typeDecl ex name ty')
   typeFn : ∀ {ex name f f'}, relS (.typeFn ex name f) (.typeFn ex name f')
   -- last statements, blocks, function bodies
   ret : ∀ {es es'}, Forall2 relE es es' → relL (.ret es) (.ret es')
-  block : ∀ {ss ss' l l'}, Forall2 relS ss ss' → OptRel relL l l' → relB (.mk ss l) (.mk ss' l')
+  block : ∀ {ss ss' l l'}, Forall2 relS ss ss' → OptRel relL l l' → relBo (.mk ss l) (.mk ss' l')
   fnBody : ∀ {ps ps' v vt vt' r r' g g' a a' b b'}, ps.map TName.name = ps'.map TName.name →
     relB b b' → relF (.mk ps v vt r g a b) (.mk ps' v vt' r' g' a' b')
 
@@ -134,10 +143,12 @@ structure HooksRel {σ : Type} (C : CongFam) (P : Processor σ) : Prop where
   stmtNode : ∀ x s, C.relS x (P.stmtNode x s).1
   afterStmtNode : ∀ x s, C.relS x (P.afterStmtNode x s).1
   last : ∀ x s, C.relL x (P.last x s).1
-  block : ∀ b s, C.relB b (P.block b s).1
-  afterBlock : ∀ b s, C.relB b (P.afterBlock b s).1
-  scopeB : ∀ b c s, C.relB b (P.scope b c s).1.1
-  scopeC : ∀ b c s, C.relE c ((P.scope b (some c) s).1.2.getD c)
+  block : ∀ b s, C.relBo b (P.block b s).1
+  afterBlock : ∀ b s, C.relBo b (P.afterBlock b s).1
+  /-- `process_scope` on an ordinary scope -/
+  scopeB : ∀ b s, C.relB b (P.scope b none s).1.1
+  /-- `process_scope` on a `repeat` body with its `until` condition -/
+  scopeR : ∀ b c s, C.relRep b c (P.scope b (some c) s).1.1 ((P.scope b (some c) s).1.2.getD c)
   insert : ∀ n s, (P.insert n s).1 = n
   insertLocalName : ∀ n v s, (P.insertLocal n v s).1.1 = n
   insertLocalVal : ∀ n v s, C.relE v ((P.insertLocal n (some v) s).1.2.getD v)
